@@ -609,7 +609,10 @@ fn gen_tag(r: &mut Rng) -> (String, String) {
             "v".to_string()
         };
         let q = if r.bool() { '"' } else { '\'' };
-        attrs.push_str(&format!(" {}={}{}{}", k, q, v, q));
+        // any XML whitespace separates attributes, and '=' may have spaces around it
+        let sep = *r.pick(&[" ", " ", " ", "\t", "\n", "\r\n  ", "  "]);
+        let eq = *r.pick(&["=", "=", "=", " =", "= ", " = "]);
+        attrs.push_str(&format!("{}{}{}{}{}{}", sep, k, eq, q, v, q));
     }
     (name, attrs)
 }
